@@ -746,3 +746,42 @@ package ysgo
 //@   requires !initguard
 //@   modifies initguard, typeError, typeReceiveErrChan, argConverterByGoalKind
 //@   ensures "bridge-ready": bridgeReady()
+//
+// The per-kind argument converters (function literals of the converter table): a value of another type is an error,
+// never a panic; the converted value has the kind the table files it under (C16: wrong argument type yields an error).
+//@ closure init$1(value *variable.Value) (res reflect.Value, err error)
+//@   requires value != nil
+//@   ensures "error-iff-not-a-number": (err == nil) == (value.Number != nil)
+//@   ensures "kind": err == nil ==> rvKind(res) == 2
+//@ closure init$2(value *variable.Value) (res reflect.Value, err error)
+//@   requires value != nil
+//@   ensures "error-iff-not-a-number": (err == nil) == (value.Number != nil)
+//@   ensures "kind": err == nil ==> rvKind(res) == 3
+//@ closure init$3(value *variable.Value) (res reflect.Value, err error)
+//@   requires value != nil
+//@   ensures "error-iff-not-a-number": (err == nil) == (value.Number != nil)
+//@   ensures "kind": err == nil ==> rvKind(res) == 4
+//@ closure init$4(value *variable.Value) (res reflect.Value, err error)
+//@   requires value != nil
+//@   ensures "error-iff-not-a-number": (err == nil) == (value.Number != nil)
+//@   ensures "kind": err == nil ==> rvKind(res) == 5
+//@ closure init$5(value *variable.Value) (res reflect.Value, err error)
+//@   requires value != nil
+//@   ensures "error-iff-not-a-number": (err == nil) == (value.Number != nil)
+//@   ensures "kind": err == nil ==> rvKind(res) == 6
+//@ closure init$6(value *variable.Value) (res reflect.Value, err error)
+//@   requires value != nil
+//@   ensures "error-iff-not-a-number": (err == nil) == (value.Number != nil)
+//@   ensures "kind": err == nil ==> rvKind(res) == 13
+//@ closure init$7(value *variable.Value) (res reflect.Value, err error)
+//@   requires value != nil
+//@   ensures "error-iff-not-a-number": (err == nil) == (value.Number != nil)
+//@   ensures "kind": err == nil ==> rvKind(res) == 14
+//@ closure init$8(value *variable.Value) (res reflect.Value, err error)
+//@   requires value != nil
+//@   ensures "error-iff-not-a-boolean": (err == nil) == (value.Boolean != nil)
+//@   ensures "kind": err == nil ==> rvKind(res) == 1
+//@ closure init$9(value *variable.Value) (res reflect.Value, err error)
+//@   requires value != nil
+//@   ensures "error-iff-not-a-string": (err == nil) == (value.String != nil)
+//@   ensures "kind": err == nil ==> rvKind(res) == 24
